@@ -533,8 +533,34 @@ def generate(tier, rng):
                 emit(special_case(op, sym, k, ca, cb, rng))
         for _ in range(nsp):
             emit(special_case("neg", "-", k, rng.choice(CLASSES), "S", rng, unary=True))
+    # 6. near-equal operands for the order and equality comparisons: unequal values whose images under a narrower
+    #    representation coincide (rationals that round to the same double, adjacent doubles / floats): a comparison
+    #    routed through an approximation is wrong exactly there
+    for k, clusters in NEAR.items():
+        for op, sym in BINOPS:
+            if op not in ("lt", "le", "gt", "ge", "eq", "ne") or not accepts(op, k):
+                continue
+            pairs = rng.sample(COMPAT, 5) + [("S", "S")] if quick else list(COMPAT)
+            for ca, cb in pairs:
+                sa, sb = compat_shapes(ca, cb, rng)
+                cl = rng.choice(clusters)
+                la = [rng.choice(cl) for _ in range(nelem(sa))]
+                lb = [rng.choice(cl) for _ in range(nelem(sb))]
+                emit(make_case(op, sym, k, sa, sb, rng, "near-equal", "%s-%s" % (ca, cb), litsA=la, litsB=lb))
     for c in out:
         yield c
+
+
+NEAR = {
+    "r64": [["1/3", "6004799503160661/18014398509481984", "3333333333333333/10000000000000000"],
+            ["9223372036854775807/1", "9223372036854775806/1", "9223372036854775805/1"],
+            ["-9223372036854775807/1", "-9223372036854775806/1"],
+            ["9007199254740993/1", "9007199254740992/1", "9007199254740991/1"],
+            ["-1/3", "-6004799503160661/18014398509481984"]],
+    "f64": [["1.0", "1.0000000000000002", "0.9999999999999999"], ["0.1", "0.10000000000000002"],
+            ["-4503599627370496.5", "-4503599627370496.0", "-4503599627370497.0"]],
+    "f32": [["1.0", "1.0000001", "0.99999994"], ["16777216.0", "16777218.0", "16777214.0"]],
+}
 
 
 def shrink(case):
